@@ -28,6 +28,37 @@ func verifHarness_Fam(prop, fam, budget, maxList int) {
 		verifC08(x, b)
 	case 9:
 		verifC09(x, b.entry)
+	case 11:
+		// lists made of a family sentence: x ; SELECT 1  /  SELECT 1 ; x  /  x ; x, each with two
+		// separator forms and an optional trailing ';'
+		if b.entry == verifEExpr || b.entry == verifEType {
+			return
+		}
+		list := 0
+		other := "SELECT 1"
+		if b.entry == verifEDDL {
+			list, other = 1, "DROP TABLE t"
+		} else if b.entry == verifEDML {
+			list, other = 2, "DELETE FROM t WHERE TRUE"
+		}
+		sep := verifConcreteTrim(verifPick(0, ";", " ;--c\n"))
+		var y string
+		switch verifChoice(3) {
+		case 0:
+			y = x + sep + other
+		case 1:
+			y = other + sep + x
+		default:
+			y = x + sep + x
+		}
+		if verifBool() {
+			y += ";"
+		}
+		verifObserve("y", y)
+		verifC11(y, list)
+		if list != 0 && verifBool() {
+			verifC11(y, 0)
+		}
 	case 16:
 		verifC16(x, b, fam, 4)
 	case 160:
@@ -283,6 +314,34 @@ func verifHarness_FamQuote(prop, fam, budget, maxList int) {
 		verifC02(x, b.entry)
 	case 4:
 		verifC04(x, b.entry)
+	case 5:
+		verifC05(x, b.entry)
+	case 6:
+		verifC06(x, b.entry)
+	}
+}
+
+// verifHarness_FamGap: a family sentence in which the single blank before one
+// token (symbolic position) is replaced by other trivia: two blanks, a comment,
+// a newline.  Position fields computed from text lengths instead of token
+// positions (keyword pairs such as ON DELETE CASCADE, NOT NULL, IS NOT ...)
+// only go wrong on such spellings.
+var verifGapTrivia = []string{"  ", " /*c*/ ", "\n"}
+
+func verifHarness_FamGap(prop, fam, budget, maxList int) {
+	b := verifNewB(maxList, budget)
+	verifFamilies[fam](b)
+	b2 := b.again()
+	b2.gapAt = verifChoice(b.ntok)
+	b2.gapText = verifGapTrivia[verifChoice(len(verifGapTrivia))]
+	verifFamilies[fam](b2)
+	x := b2.text
+	verifObserve("x", x)
+	switch prop {
+	case 1:
+		verifC01(x, b.entry)
+	case 2:
+		verifC02(x, b.entry)
 	case 5:
 		verifC05(x, b.entry)
 	case 6:
